@@ -399,7 +399,7 @@ KILLS = [
     (_MW, "        if origin is None:\n            return", "        if origin is None or origin == '*':\n            return", 'decision-table-and-frame'),
     # __init__: empty iterable
     (_MW, "            self.allow_origins = frozenset(allow_origins)\n", "            self.allow_origins = frozenset(allow_origins) or '*'\n",
-     'CORSMiddleware.__init__#'),
+     'star-inside-iterable-rejected'),
     # __init__: the wildcard anywhere in the iterable, not only in last position
     (_MW, "            if '*' in self.allow_origins:", "            if allow_origins[-1] == '*':", 'star-inside-iterable-rejected'),
     # __init__: empty expose list must still be normalised to None / str
@@ -415,7 +415,20 @@ KILLS = [
 
 ASSUMPTIONS = [
     'Request.get_header(name, default) is a case-insensitive lookup returning the header value or the default (contract of C09, stubbed here)',
-    'a configured origin set is observed only through membership of the request origin (uninterpreted membership = one fresh boolean)',
+    'a configured origin set is observed only through membership of the request origin (uninterpreted membership = one fresh boolean) '
+    'and through its truth value (a second fresh boolean, implied by membership); None is never a member',
+    'wildcard-never-with-credentials only: the request header is not the literal `Origin: *` (RFC 6454: a serialized origin or "null"); '
+    'every other clause of process_response is proved for that header value too',
+    'process_response: the configuration is in the normal form established by __init__ (harness cors_init): allow_origins / '
+    'allow_credentials are the str "*" or a frozenset without "*", expose_headers is None or a str',
+    'inputs held fixed in cors_process_response because the code under contract does not read them (falcon/middleware.py:100-143, '
+    'falcon/response.py:664-770 get_header/set_header/delete_header): resource=None, Response._extra_headers=None, Response._cookies=None '
+    '(the frame clause still demands they stay None); any other Response field is absent, so a change that starts reading one stops as unreached',
+    'cors_process_response_async: the configuration fields and the four arguments are opaque constants -- process_response is replaced by a '
+    'recording stub there, so nothing reads them; the twin takes positional arguments only (`*args`)',
+    'cors_init: iterables are given as list (0, 1, 2 elements, "*" first / last / alone) or 1-tuple; set / frozenset / generator arguments are '
+    'not separate cases (frozenset(iterable) is the only consumer and its model iterates any iterable alike); allow_origins=None is outside '
+    'the documented argument types (path cut)',
 ]
 NOT_DECIDED = ['wiring of cors_enable in App.__init__ / add_middleware duplicate guard (read, not proved)',
                'sources of Allow (default OPTIONS responder: C02 contract; StaticRoute OPTIONS branch: C16)']
